@@ -106,7 +106,7 @@ M("c08-partial-key", "C08", DEP, "                dep_param_dict = {key: dep_par
 # ------------------------------------------------------------------ C06 / C07
 M("c06-given0", "C06", J, "fs[:, i] = self.distributions[i].pdf(x[:, i], given=x[:, cond_idx])", "fs[:, i] = self.distributions[i].pdf(x[:, i], given=x[:, 0])", rules=["C06.chain"])
 M("c06-prod", "C06", J, "return np.prod(fs, axis=-1)", "return np.prod(fs[:, 1:], axis=-1)", rules=["C06.chain"])
-M("c06-perm", "C06", J, "                x = np.array(args)[np.argsort(arg_order)].reshape((1, n_dim))\n                return self.pdf(x)\n\n            return integral_func\n\n        # TODO make limits (or lower limit)", "                x = np.array(args)[arg_order].reshape((1, n_dim))\n                return self.pdf(x)\n\n            return integral_func\n\n        # TODO make limits (or lower limit)", rules=["C06.argorder"])
+M("c06-perm", "C06", J, "                x = np.array(args)[np.argsort(arg_order)].reshape((1, n_dim))\n                return self.pdf(x)\n\n            return integral_func\n\n        # every other variable is integrated", "                x = np.array(args)[arg_order].reshape((1, n_dim))\n                return self.pdf(x)\n\n            return integral_func\n\n        # every other variable is integrated", rules=["C06.argorder"])
 M("c06-delegate", "C06", J, "            return self.distributions[dim].cdf(x)", "            return self.distributions[dim].pdf(x)", rules=["C06.delegate"])
 M("c06-quantile-col", "C06", J, "        x = np.quantile(sample[:, dim], p)", "        x = np.quantile(sample[:, 0], p)", rules=["C06.mc"])
 M("c06-chkfinite", "C06", J, "        x = np.asarray_chkfinite(x)\n        if x.shape[-1] != self.n_dim:", "        x = np.asarray(x)\n        if x.shape[-1] != self.n_dim:", rules=["C06.finite"])
@@ -450,3 +450,13 @@ M("c13-integer-data", "C13", D, "        data = np.asarray_chkfinite(data, dtype
 M("c13-twin-float64", "C13", D, "        data = np.asarray_chkfinite(data, dtype=float)\n        x = np.sort(data)", "        data = np.asarray_chkfinite(data, dtype=np.float64)\n        x = np.sort(data)", expect="pass")
 M("c19-fill-callers-list", ["C19", "C09"], J, "                    filled_descriptions.append(default_fit_desc)\n", "                    filled_descriptions.append(default_fit_desc)\n                    fit_descriptions[i] = default_fit_desc\n", rules={"C19": ["C19.args"], "C09": ["C09.defaults"]}, what="the caller's list of descriptions is written to")
 M("c19-sorter-sorts-caller", "C19", U, "    x = np.asarray(x)\n    y = np.asarray(y)\n    points = np.c_[x, y]\n", "    x.sort()\n    x = np.asarray(x)\n    y = np.asarray(y)\n    points = np.c_[x, y]\n", rules=["C19.args"])
+M("c06-ranges-fixed-infinite", "C06", J, "        limits = [\n            self._get_integration_range(integral_order, position, dim)\n            for position in range(n_dim - 1)\n        ]\n", "        limits = [(0, np.inf)] * (n_dim - 1)\n", rules=["C06.ranges"], what="original defect (third audit C06#1): fixed infinite integration range")
+M("c06-ranges-wrong-position", "C06", J, "        outer = list(integral_order[position + 1 :]) + [dim]\n", "        outer = list(integral_order[position:]) + [dim]\n", rules=["C06.ranges"], what="the conditioning value is read one argument too early")
+M("c06-ranges-wrong-dist", "C06", J, "        idx = integral_order[position]\n        outer = list(", "        idx = position\n        outer = list(", rules=["C06.ranges"], what="quantiles of another variable")
+M("c06-ranges-unconditional-quantiles", "C06", J, "                given = np.full(2, args[outer.index(cond_idx)], dtype=float)\n                lower, upper = dist.icdf(probabilities, given=given)\n", "                given = np.full(2, args[0], dtype=float)\n                lower, upper = dist.icdf(probabilities, given=given)\n", rules=["C06.ranges"])
+M("c06-ranges-narrow", "C06", J, "        probabilities = np.array([1e-12, 1 - 1e-12])\n", "        probabilities = np.array([1e-3, 1 - 1e-3])\n", rules=["C06.ranges"], what="0.2 % of the mass is left out")
+M("c06-ranges-cdf-order", "C06", J, "            self._get_integration_range(integral_order[:-1], position, dim)\n", "            self._get_integration_range(integral_order, position + 1, dim)\n", rules=["C06.ranges"])
+M("c06-twin-ranges-temps", "C06", J, "                given = np.full(2, args[outer.index(cond_idx)], dtype=float)\n                lower, upper = dist.icdf(probabilities, given=given)\n", "                value = args[outer.index(cond_idx)]\n                quantiles = dist.icdf(probabilities, given=np.full(2, value, dtype=float))\n                lower, upper = quantiles\n", expect="pass")
+M("c06-twin-ranges-1e-10", "C06", J, "        probabilities = np.array([1e-12, 1 - 1e-12])\n", "        probabilities = np.array([1e-10, 1 - 1e-10])\n", expect="pass")
+M("c05-ew-pdf-raw-compare", "C05", D, "        x = np.asarray(x)  # array_like: a list cannot be compared with 0\n", "", rules=["C05.support"], what="original defect (audits C05#3, C06-second#2)")
+M("c05-twin-ew-pdf-float", "C05", D, "        x = np.asarray(x)  # array_like: a list cannot be compared with 0\n", "        x = np.asarray(x, dtype=float)\n", expect="pass")
